@@ -24,14 +24,14 @@ IsEv(e) == l <= Len(Trace) /\ E.ev = e /\ l' = l + 1
 SeqSet(s) == {s[i] : i \in DOMAIN s}
 Report(prop, key) == CSVWrite("%1$s", <<ToJson([prop |-> prop, trace |-> tid, line |-> l, key |-> key])>>, VFile)
 
-NoCf == [local |-> "", prefix |-> "", preamble |-> <<>>, predoc |-> "", paths |-> <<>>, sorted |-> <<>>, pkgname |-> "main"]
+NoCf == [local |-> "", prefix |-> "", preamble |-> <<>>, predoc |-> "", headers |-> <<>>, comments |-> <<>>, canonicalq |-> "", paths |-> <<>>, sorted |-> <<>>, pkgname |-> "main"]
 Init == /\ l = 1 /\ tid = 0 /\ cf = NoCf /\ hints = <<>> /\ imps = <<>> /\ body = <<>>
         /\ bound = <<>> /\ claims = <<>> /\ anons = {} /\ dirty = TRUE /\ last = ""
 
 New ==
   /\ IsEv("New")
   /\ tid' = E.trace
-  /\ cf' = [local |-> E.local, prefix |-> E.prefix, preamble |-> E.preamble, predoc |-> E.predoc, paths |-> E.paths,
+  /\ cf' = [local |-> E.local, prefix |-> E.prefix, preamble |-> E.preamble, predoc |-> E.predoc, headers |-> E.headers, comments |-> E.comments, canonicalq |-> E.canonicalq, paths |-> E.paths,
             sorted |-> E.sorted, pkgname |-> E.pkgname]
   /\ hints' = <<>> /\ imps' = <<>> /\ body' = <<>> /\ bound' = <<>> /\ claims' = <<>> /\ anons' = {}
   /\ dirty' = TRUE /\ last' = ""
@@ -133,8 +133,8 @@ MonFile(specsq, refs, bare, parses) ==
 
 RenderEv ==
   /\ IsEv("Render")
-  /\ LET fc   == [name |-> cf.pkgname, canonicalq |-> "", headers |-> <<>>, comments |-> <<>>, preamble |-> cf.preamble]
-         pred == RenderFile(Cfg, fc, body, imps, cf.sorted)
+  /\ LET fc   == [name |-> cf.pkgname, canonicalq |-> cf.canonicalq, headers |-> cf.headers, comments |-> cf.comments, preamble |-> cf.preamble]
+         pred == RenderFile(Cfg, fc, E.body, imps, cf.sorted)
          refs == SeqSet(E.refs)
          bare == SeqSet(E.bare)
          obsT == TableFn(E.table)
@@ -142,6 +142,12 @@ RenderEv ==
         /\ (pred[2] # obsT) => Report("DRIFT", "table")
         /\ MonRefs(E.specs, refs, bare, TRUE)
         /\ MonFile(E.specs, refs, bare, E.parses)
+        \* C02: a successful render is valid Go and exactly gofmt of the raw rendering; invalid compositions are errors
+        /\ (E.status = "panic" \/ E.rawstatus = "panic") => Report("C02", "panic")
+        /\ (E.status = "nil" /\ E.rawstatus = "nil" /\ ~E.fmteq) => Report("C02", "output is not gofmt of the raw rendering")
+        /\ (E.status = "nil" /\ ~E.parses) => Report("C02", "nil but the output does not parse")
+        /\ (E.status = "nil" /\ E.rawstatus = "nil" /\ ~E.fmtok) => Report("C02", "invalid composition emitted as if valid")
+        /\ (E.status = "error" /\ E.rawstatus = "nil" /\ E.fmtok) => Report("C02", "formattable rendering reported as an error")
         /\ (~dirty /\ last # E.out) => Report("C08", "repeat")
         /\ imps' = obsT
         /\ bound' = Bind(bound, Quals(refs, bare))
@@ -157,6 +163,8 @@ FragEv ==
          obsT == TableFn(E.table)
      IN /\ (pred[2] # obsT) => Report("DRIFT", "table")
         /\ MonRefs(<<>>, refs, bare, FALSE)
+        /\ (E.status = "panic") => Report("C02", "panic in fragment render")
+        /\ (E.status = "nil" /\ ~E.parses) => Report("C02", "fragment: nil but the output does not parse")
         /\ imps' = obsT
         /\ bound' = Bind(bound, Quals(refs, bare))
   /\ dirty' = TRUE
